@@ -127,14 +127,17 @@ class _Crash(_Lease):
                 if not crashed:
                     break
                 if not os.path.exists(p):
-                    results.append((k, True, []))
+                    results.append((k, (True, True, True), []))
                     continue
+                data_same, now = (False, False, False), []
                 try:
                     sf = M.ShareFile(p)
-                    data_same = sf.read_share_data(0, 10 ** 9) == data0
+                    d_now = sf.read_share_data(0, 10 ** 9)
+                    m_ = min(len(d_now), len(data0))
+                    data_same = (len(d_now) <= len(data0), len(d_now) >= len(data0), d_now[:m_] == data0[:m_])
                     now = [lease_key(l) for l in sf.get_leases()]
                 except Exception as e:       # noqa
-                    data_same, now = False, []
+                    pass
                 results.append((k, data_same, [i for i in range(a["n"]) if leases0[i] not in now]))
         out = Outcome("return", None) if outcome is None else Outcome("raise", exc=outcome, exc_cls=type(outcome))
         out.post = {"native_crash": results, "raw0": raw0}
@@ -145,7 +148,9 @@ class _Crash(_Lease):
         c = None
         for (k, data_same, missing) in out.post["native_crash"]:
             tag = "crash-after-op-%d" % k
-            g.append(("%s:data-region-after-restart-is-unchanged" % tag, z3.BoolVal(data_same)))
+            g.append(("%s:data-region-does-not-grow-after-restart" % tag, z3.BoolVal(data_same[0])))
+            g.append(("%s:data-region-does-not-shrink-after-restart" % tag, z3.BoolVal(data_same[1])))
+            g.append(("%s:data-bytes-after-restart-are-unchanged" % tag, z3.BoolVal(data_same[2])))
             for i in range(a["n"]):
                 untouched = self.native_untouched(a, out.post["raw0"], i)
                 g.append(("%s:unmodified-lease-%d-still-listed-after-restart" % (tag, i), z3.BoolVal((not untouched) or i not in missing)))
@@ -166,7 +171,9 @@ class _Crash(_Lease):
         for k, (what, ck, nk) in enumerate(out.post["snaps"]):
             cnt, end = recovered_view(ck, nk)
             tag = "crash-after-op-%d" % (k + 1)
-            g.append(("%s:data-region-after-restart-is-unchanged" % tag, z3.And(end == end0, forall_range(12, end0, lambda j: z3.Select(ck, j) == z3.Select(c, j)))))
+            g.append(("%s:data-region-does-not-grow-after-restart" % tag, end <= end0))
+            g.append(("%s:data-region-does-not-shrink-after-restart" % tag, end >= end0))
+            g.append(("%s:data-bytes-after-restart-are-unchanged" % tag, forall_range(12, z3.If(end < end0, end, end0), lambda j: z3.Select(ck, j) == z3.Select(c, j))))
             for cond, i in self.untouched_leases(a, c):
                 # lease i's 72 bytes are still listed by get_leases() after restart: it is one of the cnt records starting at `end`
                 rec0 = lease_off(a, i)
@@ -247,10 +254,17 @@ class CrashClose(Spec):
     def inputs(self):
         return {"file0": FileK(None)}
 
+    def requires(self, I, a):
+        from contracts.C22 import WFI
+        c, n = as_arr(a["file0"])
+        return WFI(c, n)
+
     def config(self):
         me = self
 
         def on_op(I, what, key):
+            if not getattr(me, "_recording", True):
+                return
             fin = I.disk.get("final/si/0")
             me._snaps.append((what, key, None if fin is None or not fin.exists else (fin.content, Z(fin.length))))
         return {"on_file_op": on_op, "rmdir": lambda I, key: None}
@@ -259,8 +273,15 @@ class CrashClose(Spec):
         from contracts.C22 import mk_timer, mk_ss, mk_clock
         self._snaps = []
         put_file(I, "incoming/si/0", a["file0"])
-        bw = SObj(self.module().BucketWriter, {"ss": mk_ss(), "incominghome": PathTok("incoming/si/0"), "finalhome": PathTok("final/si/0"),
-                                               "closed": False, "_timeout": mk_timer(True), "_sharefile": Opaque("sf"), "_max_size": 10, "_clock": mk_clock()})
+        # the writer's container object is the real ShareFile opened on the incoming file (so anything close() does to the
+        # share through it is executed, not abstracted away); opening it is not a crash point
+        self._recording = False
+        sf = I.call_value(self.module().ShareFile, [PathTok("incoming/si/0")], {})
+        self._recording = True
+        import allmydata.storage.lease as L
+        lease = SObj(L.LeaseInfo, {"owner_num": 1, "renew_secret": b"r" * 32, "cancel_secret": b"c" * 32, "_expiration_time": 2 ** 31, "nodeid": b"n" * 20})
+        bw = SObj(self.module().BucketWriter, {"ss": mk_ss(), "incominghome": PathTok("incoming/si/0"), "finalhome": PathTok("final/si/0"), "_lease_info": lease,
+                                               "closed": False, "_timeout": mk_timer(True), "_sharefile": sf, "_max_size": 10, "_clock": mk_clock()})
         I.call_value(self.target(I), [bw], {})
         out = Outcome("return", None)
         out.post = {"snaps": list(self._snaps)}
